@@ -60,7 +60,11 @@ def extract_first_line(func_code):
     """
     if func_code.startswith(FIRST_LINE_TEXT):
         func_code = func_code.split("\n")
-        first_line = int(func_code[0][len(FIRST_LINE_TEXT) :])
+        try:
+            first_line = int(func_code[0][len(FIRST_LINE_TEXT) :])
+        except ValueError:
+            # Truncated file: the line number is unknown.
+            first_line = -1
         func_code = "\n".join(func_code[1:])
     else:
         first_line = -1
